@@ -1,6 +1,6 @@
 From Coq Require Import ZArith List String Bool.
 Import ListNotations.
-From TD Require Import Lib.Sexp Model.C20_Apply Model.C20_Sched.
+From TD Require Import Lib.Sexp Model.C20_Apply Model.C20_Sched Model.C20_Lazy.
 Open Scope string_scope.
 
 (* the user function of the correspondence run is the free term constructor: fn(key, item, args) = TFn key item args,
@@ -153,7 +153,7 @@ Definition enc_t (t : tree term) : sexp := enc_tree 400 t.
 
 Definition enc_err (e : err) : sexp :=
   SA (match e with EKey => "KeyError" | ERuntime => "RuntimeError" | EValue => "ValueError" | EAttr => "AttributeError"
-               | EType => "TypeError" end).
+               | EType => "TypeError" | EIndex => "IndexError" end).
 Definition enc_mres {X} (f : X -> sexp) (r : mres X) : sexp :=
   match r with
   | MOk x => SL [SA "ok"; f x]
@@ -167,6 +167,48 @@ Definition enc_lazy (r : lazy_ret term) : sexp :=
   match r with
   | LNone _ => SA "none"
   | LStack _ l => SL (SA "stack" :: map enc_t l)
+  end.
+
+
+(* ---------------------------------------------------------------- lazy stacks (Model/C20_Lazy.v) *)
+Definition dummy_t : tree term := Leaf New (VOld 0%Z).
+(* self = (obj stack_dim dim_name members) *)
+Definition dec_lstack (s : sexp) : option (lstack term) :=
+  match s with
+  | SL [SZ z; sd; nm; ms] =>
+      match dec_nat sd, dec_opt dec_str nm, dec_list dec_t ms with
+      | Some sd, Some nm, Some ms => Some (mkLazy term (Old z) sd nm ms)
+      | _, _, _ => None
+      end
+  | _ => None
+  end.
+(* an operand = (lazy? batch_size slices-along-self's-stack-dim): the slices along the other dims are not needed by a
+   faithful model of the call (they are the dummy tensor) *)
+Definition dec_operand (d : nat) (s : sexp) : option (operand term) :=
+  match s with
+  | SL [lz; bs; sl] =>
+      match dec_opt (dec_pair dec_nat (dec_list dec_t)) lz, dec_list dec_nat bs, dec_list dec_t sl with
+      | Some lz, Some bs, Some sl =>
+          Some (mkOp term lz bs (fun d' i => if Nat.eqb d' d then nth i sl dummy_t else dummy_t))
+      | _, _, _ => None
+      end
+  | _ => None
+  end.
+Definition dec_lout (s : sexp) : option (lout term) :=
+  match s with
+  | SA "other" => Some (OutOther term)
+  | SL [SA "lazy"; tc; ms] =>
+      match dec_bool tc, dec_list dec_t ms with
+      | Some tc, Some ms => Some (OutLazy term tc ms)
+      | _, _ => None
+      end
+  | _ => None
+  end.
+Definition enc_lres (r : lres term) : sexp :=
+  match r with
+  | LRNone _ => SA "none"
+  | LRStack _ ob sd nm l => SL [SA "stack"; enc_obj ob; enc_nat sd; enc_opt enc_str nm; SL (map enc_t l)]
+  | LRView _ m => SL [SA "view"; enc_meta m]
   end.
 
 Definition dispatch (cmd : string) (args : list sexp) : option sexp :=
@@ -193,6 +235,21 @@ Definition dispatch (cmd : string) (args : list sexp) : option sexp :=
           | None => None
           end
       | _, _, _, _, _, _, _, _ => None
+      end
+  | "lz", [SA mode; os; self; others; out; names; con; prop; nones; pi] =>
+      match dec_opts os, dec_lstack self with
+      | Some o, Some self =>
+          match dec_list (dec_operand (l_sd term self)) others, dec_opt dec_lout out, dec_absent dec_names names,
+                dec_bool con, dec_bool prop, dec_list dec_Z nones, dec_list dec_nat pi with
+          | Some others, Some out, Some names, Some con, Some prop, Some nones, Some pi =>
+              let fn := term_fn nones in
+              if String.eqb mode "st" then Some (enc_mres enc_lres (of_res (lz_front term o fn con prop self others out names)))
+              else if String.eqb mode "mt" then Some (enc_mres enc_lres (lz_mt_front term o fn con prop self others out names pi))
+              else if String.eqb mode "apply_" then Some (enc_mres enc_lres (of_res (lz_apply_ term o fn con names self others)))
+              else None
+          | _, _, _, _, _, _, _ => None
+          end
+      | _, _ => None
       end
   | "ntasks", [os; con; self] =>
       match dec_opts os, dec_bool con, dec_t self with
